@@ -34,7 +34,7 @@ instance : Region Codec.Region (List UInt8) (Nat × Nat) where
   push := Codec.Region.push
   index := Codec.Region.index
   clear := Codec.Region.clear
-  Inv _ := True
+  Inv r := r.codec.WF
   Valid r i := i.1 ≤ i.2 ∧ i.2 ≤ r.inner.length
   Accepts r v := (Codec.Region.push r v).isSome
   Sim a b := a.inner = b.inner ∧ a.codec.encode = b.codec.encode ∧ a.codec.decode.offsets = b.codec.decode.offsets
